@@ -431,6 +431,10 @@ def yaml_of_policy(pol, rng):
         r = rng.random()
         return s.upper() if r < 0.15 else (s.capitalize() if r < 0.3 else s)
     out = ["seccomp:", "  default_action: %s" % act(pol["default"]), "  syscalls:"]
+    if pol["default"] == 0 and rng.random() < 0.6:
+        # a key left out means the field's zero value (kill_thread; default_action is not a required key): nothing else may
+        # be filled in for it
+        out = ["seccomp:", "  syscalls:"]
     for g in pol["groups"]:
         out.append("  - action: %s" % act(g["action"]))
         if g["names"]:
